@@ -383,33 +383,64 @@ func c05Wire(r *vlib.Run) {
 			fail(fmt.Sprintf("%d groups, want %d", len(scRows), len(baseRows)))
 			continue
 		}
-		for g, brow := range baseRows {
-			srow, ok := scRows[g]
-			if !ok || len(srow) != len(brow) {
-				fail("group " + g + " missing or of another width")
-				break
+		// expectation computed from the lines themselves (the result files only carry six decimals, so one result
+		// cannot be the yardstick of the other): per group n, sum, sum of magnitudes, min, max
+		type gstat struct{ n, sum, abs, min, max float64 }
+		stats := map[string]*gstat{}
+		for _, l := range typed[i].Pipe.Servers[0].Files[0].Lines {
+			f := strings.Split(l, "|")
+			g := strings.TrimPrefix(f[0], "g=")
+			v, _ := strconv.ParseFloat(strings.TrimPrefix(f[1], "v="), 64)
+			st := stats[g]
+			if st == nil {
+				st = &gstat{min: v, max: v}
+				stats[g] = st
 			}
-			bad := ""
-			for c := 1; c < len(brow) && c < len(header); c++ {
-				bv, e1 := strconv.ParseFloat(brow[c], 64)
-				sv, e2 := strconv.ParseFloat(srow[c], 64)
-				if e1 != nil || e2 != nil {
-					bad = fmt.Sprintf("column %s of group %s is not a number: %q / %q", header[c], g, brow[c], srow[c])
-					break
+			st.n++
+			st.sum += v
+			st.abs += math.Abs(v)
+			st.min, st.max = math.Min(st.min, v), math.Max(st.max, v)
+		}
+		check := func(rows map[string][]string, scale float64, which string) string {
+			for g, st := range stats {
+				row, ok := rows[g]
+				if !ok || len(row) != len(header) {
+					return which + ": group " + g + " missing or of another width"
 				}
-				want := bv
-				if strings.HasPrefix(header[c], "count(") || strings.HasPrefix(header[c], "sum(") {
-					want = bv * total
-				}
-				if math.Abs(sv-want) > 1e-9*math.Max(1, math.Abs(want)) {
-					bad = fmt.Sprintf("column %s of group %s is %s, want %v (unscaled %s x %v)", header[c], g, srow[c], want, brow[c], total)
-					break
+				for c := 1; c < len(header); c++ {
+					got, err := strconv.ParseFloat(row[c], 64)
+					if err != nil {
+						return fmt.Sprintf("%s: column %s of group %s is not a number: %q", which, header[c], g, row[c])
+					}
+					var want, mag float64
+					switch header[c] {
+					case "count($line)", "count(v)", "sum(w)":
+						want, mag = st.n*scale, st.n*scale
+					case "sum(v)":
+						want, mag = st.sum*scale, st.abs*scale
+					case "min(v)":
+						want, mag = st.min, math.Abs(st.min)
+					case "max(v)":
+						want, mag = st.max, math.Abs(st.max)
+					case "avg(v)":
+						want, mag = st.sum/st.n, st.abs/st.n
+					case "avg(w)":
+						want, mag = 1, 1
+					default:
+						continue
+					}
+					// floating-point rounding of the sums (relative to the magnitudes summed) + the six printed decimals
+					if math.Abs(got-want) > 1e-9*mag+1.1e-6 {
+						return fmt.Sprintf("%s: column %s of group %s is %s, want %v (scale %v)", which, header[c], g, row[c], want, scale)
+					}
 				}
 			}
-			if bad != "" {
-				fail(bad)
-				break
-			}
+			return ""
+		}
+		if why := check(baseRows, 1, "unscaled run"); why != "" {
+			fail(why)
+		} else if why := check(scRows, total, "scaled run"); why != "" {
+			fail(why)
 		}
 	}
 }
